@@ -45,8 +45,15 @@ func TestForcedRapid(t *testing.T) {
 	pr, _ := profileFor("C13")
 	vlib.RunRapid(t, "hand", "forced", st, func(rt *rapid.T) vlib.Outcome {
 		c := GenCfg(rt, pr)
+		if !c.NoBBSeat && rapid.IntRange(0, 19).Draw(rt, "noBigBlind") == 0 {
+			// the seats keep their positions, but no big blind is configured: the small
+			// blind and / or the dealer blind are the only forced bets (prefix drive only)
+			c.BB = 0
+		}
 		st.Evaluations++
 		v := runForced(c)
+		st.ClassIf(c.BB == 0 && !c.NoBBSeat, "bb=0-with-bb-seat")
+		st.ClassIf(c.BB == 0 && !c.NoBBSeat && c.SB > 0 && c.DB == 0, "small-blind-only")
 		if forcedNonTrivial(c) {
 			cc := *c
 			cc.Deck = nil
@@ -94,7 +101,9 @@ func TestForcedGrid(t *testing.T) {
 			}
 			for _, ante := range []int64{0, 1, 2} {
 				for _, sb := range []int64{0, 1, 2} {
-					for _, bb := range []int64{1, 2, 3} {
+					// bb 0: a seat holds "bb" but no big blind is configured (the small blind
+					// and / or the dealer blind are the only forced bets)
+					for _, bb := range []int64{0, 1, 2, 3} {
 						for _, db := range []int64{0, 2} {
 							for dealer := 0; dealer < n; dealer++ {
 								for layout := 0; layout < 3; layout++ {
